@@ -125,6 +125,7 @@ def parse_operand(s):
     if s.startswith('move '): return ('move', parse_place(s[5:]))
     if s.startswith('no_retag '): return parse_operand(s[9:])
     if s.startswith('const '): return ('const', s[6:].strip())
+    if re.match(r'^[A-Za-z_][\w:<>, ]*$', s): return ('const', s)      # a bare fn item / tuple-variant constructor passed as a value
     raise ValueError('bad operand ' + s)
 
 BINOPS = {'Add','Sub','Mul','Div','Rem','BitXor','BitAnd','BitOr','Shl','Shr','Eq','Lt','Le','Ne','Ge','Gt','Offset','Cmp',
